@@ -304,7 +304,21 @@ func runCrashChild(scratch string, sp crashSpec, n int) (crashOut, bool, string)
 	lf, _ := os.Create(logp)
 	cmd := exec.Command("timeout", "-s", "QUIT", "300", self, "crashchild", in)
 	cmd.Stdout, cmd.Stderr = lf, lf
+	// the child is bounded by `timeout 300`; while it runs the parent's watchdog is fed, so that a
+	// slow child on a loaded machine is not mistaken for a parent that makes no progress
+	stopBeat := make(chan struct{})
+	go func() {
+		for {
+			rt.Beat()
+			select {
+			case <-stopBeat:
+				return
+			case <-time.After(5 * time.Second):
+			}
+		}
+	}()
 	err := cmd.Run()
+	close(stopBeat)
 	lf.Close()
 	var out crashOut
 	ob, rerr := os.ReadFile(sp.Out)
